@@ -4,9 +4,9 @@ From Coq Require Import ZArith List.
 From Coq Require Extraction.
 From Coq Require Import ExtrOcamlBasic.
 From Coq Require Import QArith.
-From Scenic Require Import C02.Checker C02.Defaults C02.DefaultsProofs.
+From Scenic Require Import C02.Checker C02.Defaults C02.DefaultsProofs C02.Basic.
 From Scenic Require Import C17.Vec C04.Polytope.   (* certificate checkers for the exact scene oracle (proved sound in C04) *)
 Extraction Language OCaml.
 Extraction "model.ml" init_state check sorted_requirements get
   default_requirements default_requirements_oneshot dfals all_hold_b doptional
-  separates common_point Qplus Qdiv Qred Qle_bool.
+  basic_check separates common_point Qplus Qdiv Qred Qle_bool.
